@@ -49,6 +49,15 @@ CHECKS = {
  "C04": dict(cat="exploration", tech="deterministic simulation: seeded histories over adversarially named buckets and keys in all index modes and structures, refinement against a model with independent per-bucket namespaces",
    text="Two to four buckets with names that are prefixes of each other / equal to keys / empty / contain '|' and keys chosen so that bucket+key concatenations coincide; KV in all index modes, lists/sets/sorted sets in key+value mode; single-bucket transactions; reopens; every read of every bucket compared with the model after every step.",
    note="Known finding K6 (sparse mode indexes by the bare concatenation bucket+key) is avoided in sparse mode only, by equal-length bucket names; it is re-demonstrated from its witness."),
+ "C19": dict(cat="exploration", tech="deterministic simulation: the same seeded program executed in 8-24 worlds that differ only in storage options, with identical simulated clock and seeded math/rand, call-by-call differential comparison",
+   text="One seeded program per run executed once for every combination of RWMode x StartFileLoadingMode x SyncEnable (KV-only programs also x the three index modes); every call result, every commit outcome and the full observation after a final reopen must equal those of the reference combination.",
+   note="SPop is not issued (Go map order); an empty scan result and the not-found error count as the same answer."),
+ "C20": dict(cat="exploration", tech="deterministic simulation used for seeded stateful API fuzzing with boundary-heavy arguments and lifecycle misuse; oracle: no recovered panic in any call, Commit or Open",
+   text="Boundary-heavy arguments (int64 extremes, NaN/Inf, separators, empty names, bad regexps) in arbitrary order, in self-modifying transactions, read-only transactions, finished transactions, on a closed database (Update/View/Merge/Backup/Close), Update(nil), with reopens; no call, later Commit or later Open may panic.",
+   note="Fault-free; no schedule dimension: the simulator contributes persistent state (closed, finished, reopened), determinism and shrinking."),
+ "C22": dict(cat="exploration", tech="deterministic simulation: directories produced by seeded histories (incl. crash images and merged directories) reopened with every other index mode; refusal + byte-identical tree, or equal observation",
+   text="For every image (clean, never written, written, merged, crashed at a seeded file-mutation point) produced in one index mode, Open with each other mode: sparse<->RAM on a directory holding data must be refused and leave the tree byte-identical; RAM<->RAM must succeed and show the model's contents.",
+   note="A directory without any data record need not be refused (the statement speaks of data)."),
 }
 
 ORDER = sorted(CHECKS)
